@@ -176,6 +176,7 @@ def value_sets(params, rng, w, n, nm, nrand):
     bb = [[(-(1 + (i % 8))) * pow(B % p, p - 2, p) % p for i in range(n)] for p in ps]
     aa = [[(p - pow(x, p - 2, p)) % p if x else 1 for x in row] for p, row in zip(ps, bb)]
     sets.append(("quotient rounding boundary b*2^w = -s mod p, a*b = -1", aa, bb, per(lambda p, i: p - 1 - i)))
+    sets.append(("quotient rounding boundary a*2^w = -s mod p (the quotient of a itself is observed)", bb, aa, per(lambda p, i: i)))
     for _ in range(nrand): sets.append(("random", R(), R(), R()))
     return sets
 
